@@ -72,7 +72,7 @@ func genShape(r *gen.Rand) ShapeCase {
 		s.Container, s.Op = []string{"nested", "intkeys", "namedkeys"}[r.Intn(3)], "once"
 	case 2:
 		s.Container, s.Op = "uni", "uni"
-	case 3, 4:
+	case 3, 4, 5, 6, 7, 8:
 		s.Container, s.Op, s.Key = "live", "live", ""
 		s.Val = genLive(r)
 		return s
